@@ -186,10 +186,12 @@ Theorem C06_unary_map : forall (V : Type) (f : V -> V) fd (t : ptensor V) idx,
 Proof. exact map_refines. Qed.
 Print Assumptions C06_unary_map.
 
-(** the side condition holds for every modelled unary / scalar operation on the concrete carrier,
-    under the guard that excludes the cases where Python's max/min differ from torch (NaN) *)
+(** the side condition holds for every modelled unary / scalar operation on the concrete carrier and
+    EVERY default (0, inf, NaN): abs, neg_, relu_, scalar + - * / (division by 0 included), comparisons;
+    the only guard left is for clamp_min/clamp_max, whose default is still Python's max/min: the
+    scalar *argument* must not be NaN *)
 Theorem C06_unary_ops : forall op sc (t r : pt) next f idx,
-  is_unary op = true -> unary_guard op sc (default t) = true ->
+  is_unary op = true -> unary_guard op sc = true ->
   model_op op [] sc [t] next = Ok r -> unary_fn op sc = Some f ->
   denote xval r idx = f (denote xval t idx).
 Proof. exact unary_refines. Qed.
@@ -204,25 +206,33 @@ Theorem C06_nan_to_num : forall na sc (t r : pt) next idx,
 Proof. exact nan_to_num_refines. Qed.
 Print Assumptions C06_nan_to_num.
 
-(** F16: the faithful model raises ZeroDivisionError where the dense operation is defined *)
-Theorem C06_div_scalar_zero_refuted :
-  model_op 18 [] [XF 0] [t_ex] 2 = Fail ZeroDivisionError /\
-  exists shp f, spec_op 18 [] [XF 0] [t_ex] = OVal shp f /\ f [0; 1] = XPInf.
-Proof. exact div_scalar_zero_refuted. Qed.
-Print Assumptions C06_div_scalar_zero_refuted.
-
-Theorem C06_div_default_zero_refuted :
-  model_op 33 [] [] [t_ex; u_ex] 9 = Fail ZeroDivisionError /\
-  exists shp f, spec_op 33 [] [] [t_ex; u_ex] = OVal shp f /\ f [0; 1] = XPInf.
-Proof. exact div_default_zero_refuted. Qed.
-Print Assumptions C06_div_default_zero_refuted.
-
-(** ... and the positive statement under the guard (non-zero scalar divisor) *)
-Theorem C06_div_scalar_guarded : forall s (t r : pt) next idx,
-  is0 s = false -> model_op 18 [] [s] [t] next = Ok r ->
+(** division by a scalar (fc474fc): for every scalar, 0 / inf / NaN included, and every default *)
+Theorem C06_div_scalar : forall s (t r : pt) next idx,
+  model_op 18 [] [s] [t] next = Ok r ->
   denote xval r idx = xdiv (denote xval t idx) s.
 Proof. exact div_scalar_refines. Qed.
-Print Assumptions C06_div_scalar_guarded.
+Print Assumptions C06_div_scalar.
+
+(** relu_ (fd2047f): for every default; a NaN default stays NaN *)
+Theorem C06_relu : forall (t r : pt) next idx,
+  model_op 12 [] [] [t] next = Ok r -> denote xval r idx = xrelu (denote xval t idx).
+Proof. exact relu_refines. Qed.
+Print Assumptions C06_relu.
+
+(** log / log_ (ad94aa4): the helper [_log] treats every default like torch.log treats an element
+    (0 -> -inf, negative / -inf / NaN -> NaN, inf -> inf); [lnpos] is the logarithm on positive rationals *)
+Theorem C06_log_default : forall (lnpos : Qc -> xval) (t : pt) idx,
+  denote xval (pt_map xval (xlog lnpos) (py_log lnpos (default t)) t) idx = xlog lnpos (denote xval t idx).
+Proof. exact log_refines. Qed.
+Print Assumptions C06_log_default.
+
+(** record of the repaired behaviour: the former Python-scalar defaults, as explicitly named [*_old] definitions *)
+Theorem C06_relu_default_old_refuted : relu_default_old XNaN <> xrelu XNaN.
+Proof. exact relu_default_old_refuted. Qed.
+Print Assumptions C06_relu_default_old_refuted.
+Theorem C06_maximum_default_old_refuted : maximum_default_old (XF 1) XNaN <> xmax (XF 1) XNaN.
+Proof. exact maximum_default_old_refuted. Qed.
+Print Assumptions C06_maximum_default_old_refuted.
 
 (** * binary operations through expansion / anti-unification
 
@@ -296,8 +306,7 @@ Theorem C06_maximum_partial : forall next (t u r : pt) next' x idx,
   wf xval t -> wf xval u -> vars_below xval next t -> vars_below xval next u ->
   no_broadcast xval t u = true -> expansion xval next t u = Ok x -> sizes_agree x = true ->
   length idx = length (vaxes t) ->
-  xisnan (default u) = false ->
-  pt_commutative xval xeqb' xmax XNInf (py_max (default t) (default u)) next t u = Ok (r, next') ->
+  pt_commutative xval xeqb' xmax XNInf (xmax (default t) (default u)) next t u = Ok (r, next') ->
   denote xval r idx = xmax (denote xval t idx) (denote xval u idx).
 Proof. exact maximum_refines. Qed.
 Print Assumptions C06_maximum_partial.
@@ -311,14 +320,13 @@ Theorem C06_sub_partial : forall next (t u r : pt) next' x idx,
 Proof. exact sub_refines. Qed.
 Print Assumptions C06_sub_partial.
 
-(** F22: a NaN default is dropped by relu_ (Python max(0, nan) = 0) and by maximum (Python max(x, nan) = x);
-    the positive statements are C06_unary_ops / C06_maximum_partial under their NaN guards *)
-Theorem C06_relu_nan_default_refuted :
-  exists r, model_op 12 [] [] [t_nan] 2 = Ok r /\
-            denote xval r [0; 1] = XF 0 /\ xrelu (denote xval t_nan [0; 1]) = XNaN.
-Proof. exact relu_nan_default_refuted. Qed.
-Print Assumptions C06_relu_nan_default_refuted.
-
-Theorem C06_maximum_nan_default_refuted : py_max (XF 1) XNaN = XF 1 /\ xmax (XF 1) XNaN = XNaN.
-Proof. exact maximum_nan_default_refuted. Qed.
-Print Assumptions C06_maximum_nan_default_refuted.
+(** div (fc474fc): the default is xdiv of the defaults for every divisor default (0 included); the
+    reciprocal path [(1 / u) * t] equals [t / u] on the whole carrier *)
+Theorem C06_div_partial : forall next (t u r : pt) next' x idx,
+  wf xval t -> wf xval u -> vars_below xval next t -> vars_below xval next u ->
+  no_broadcast xval t u = true -> expansion xval next t u = Ok x -> sizes_agree x = true ->
+  length idx = length (vaxes t) ->
+  pt_sub_like xval xeqb' xdiv (fun b => xdiv (XF 1) b) xmul (XF 1) (xdiv (default t) (default u)) next t u = Ok (r, next') ->
+  denote xval r idx = xdiv (denote xval t idx) (denote xval u idx).
+Proof. exact div_refines. Qed.
+Print Assumptions C06_div_partial.
